@@ -38,8 +38,10 @@ func b64dec(s string) ([]byte, error) { return base64.RawURLEncoding.DecodeStrin
 type command func(args []string)
 
 var commands = map[string]command{
-	"applier-replay": applierReplay,
-	"applier-trace":  applierTrace,
+	"applier-replay":  applierReplay,
+	"applier-trace":   applierTrace,
+	"composer-replay": composerReplay,
+	"composer-trace":  composerTrace,
 }
 
 func main() {
